@@ -360,6 +360,49 @@ def all_types_triangle():
     return [a], {}
 
 
+# ------------------------------------------- bilinear interior-facet forms (both restrictions of one table)
+def _dS_bilinear(cell, fam, degrees):
+    """jump-jump, avg-avg and u('+')v('-') + u('-')v('-'): the SAME facet-dependent trial/test table is read
+    through entity_local_index[0]/quadrature_permutation[0] and through [1] with the same scalar factor."""
+    ufl, _, _ = _U()
+    forms = []
+    for deg in degrees:
+        m = mesh(cell)
+        V = space(m, fam, deg)
+        u, v = tt(V)
+        forms += [ufl.jump(u) * ufl.jump(v) * ufl.dS, ufl.avg(u) * ufl.avg(v) * ufl.dS,
+                  (u("+") * v("-") + u("-") * v("-")) * ufl.dS]
+    return forms
+
+
+@entry("quick")
+def dS_bilinear_triangle():
+    return _dS_bilinear("triangle", "Lagrange", (1, 2)), {}
+
+
+@entry("quick")
+def dS_bilinear_tetrahedron():
+    return _dS_bilinear("tetrahedron", "Lagrange", (1,)), {}
+
+
+@entry("quick")
+def dS_bilinear_quadrilateral():
+    return _dS_bilinear("quadrilateral", "Q", (1,)), {}
+
+
+@entry("thorough")
+def dS_bilinear_p2_tet_q2_quad():
+    return _dS_bilinear("tetrahedron", "Lagrange", (2,)) + _dS_bilinear("quadrilateral", "Q", (2,)), {}
+
+
+@entry("quick")
+def q1_quadrilateral_sumfact_bilinear():
+    ufl, _, _ = _U()
+    m = tp_mesh("quadrilateral")
+    u, v = tt(tp_space(m, 1))
+    return [ufl.inner(ufl.grad(u), ufl.grad(v)) * ufl.dx], {"sum_factorization": True}
+
+
 # -------------------------------------------------------- coefficients, constants, quadrature
 @entry("quick")
 def coefficient_dropout():
